@@ -5,7 +5,7 @@
                               subscriber ends with is the highest key of the prefix in the committed DB, and
                               every value it ever saw is a committed key
      [latest_observed_old_refuted_*]  the code as it was: a stale last value, an uncommitted key, the empty key *)
-From Coq Require Import List NArith Bool Lia.
+From Coq Require Import List NArith Bool Lia PeanoNat.
 From Oxia.Db Require Import Types SeqWait.
 Import ListNotations.
 
@@ -209,4 +209,161 @@ Theorem latest_observed_old_refuted_empty_key :
   exists acts s, run_sys step_old (init_sys [K5]) acts = Some s /\ quiescent s /\ last_observed s = Some [].
 Proof.
   exists [SubRegister; SubRead; SubWrite; PutFail]. eexists. split; [vm_compute; reflexivity|]. repeat split.
+Qed.
+
+(* ================================================================ several waiters, subscribe / close in any order *)
+Lemma key_eq_refl p : key_eq p p = true.
+Proof. unfold key_eq. destruct (list_eq_dec N.eq_dec p p); congruence. Qed.
+
+Lemma NoDup_map_eq {A B} (f : A -> B) (l : list A) x y :
+  NoDup (map f l) -> In x l -> In y l -> f x = f y -> x = y.
+Proof.
+  induction l as [|a l IH]; simpl; intros Hn Hx Hy E; [contradiction|].
+  inversion Hn as [|? ? Hna Hn']; subst.
+  destruct Hx as [->|Hx]; destruct Hy as [->|Hy]; try reflexivity.
+  - exfalso. apply Hna. rewrite E. apply in_map. exact Hy.
+  - exfalso. apply Hna. rewrite <- E. apply in_map. exact Hx.
+  - apply IH; assumption.
+Qed.
+
+Definition tinv (t : tracker) : Prop :=
+  (forall s, In s (t_subs t) -> (sb_id s <= t_next t)%N /\ (sb_h s < length (t_subs t))%nat) /\
+  NoDup (map sb_id (t_subs t)) /\ NoDup (map sb_h (t_subs t)) /\
+  (forall s, In s (t_subs t) -> sb_reg s = sb_open s) /\
+  (forall s, In s (t_subs t) -> sb_open s = true -> sub_last s = sb_exp s).
+
+Lemma tinv_init : tinv init_tracker.
+Proof.
+  unfold tinv, init_tracker; simpl.
+  split; [intros s H; contradiction|]. split; [constructor|]. split; [constructor|].
+  split; intros s H; contradiction.
+Qed.
+
+Lemma NoDup_app_snoc {A} (l : list A) x : NoDup l -> ~ In x l -> NoDup (l ++ [x]).
+Proof.
+  induction l as [|a l IH]; simpl; intros Hn Hx; [constructor; [intros []|constructor]|].
+  inversion Hn; subst. constructor.
+  - intro Hin. apply in_app_or in Hin. destruct Hin as [Hin|[->|[]]]; [contradiction|]. apply Hx. left. reflexivity.
+  - apply IH; [assumption|]. intro Hin. apply Hx. right. exact Hin.
+Qed.
+
+Lemma sub_eq_dec (a b : sub) : {a = b} + {a <> b}.
+Proof. repeat decide equality. Qed.
+
+Lemma find_some_in {A} (f : A -> bool) l x : find f l = Some x -> In x l /\ f x = true.
+Proof. apply find_some. Qed.
+
+Lemma tinv_step t a : tinv t -> tinv (tstep alloc_counter t a).
+Proof.
+  intros [Hb [Hi [Hh [Hr He]]]]. destruct a as [p init|h|p k|h]; simpl.
+  - (* TAdd: the new id is above every id in use, nothing is replaced *)
+    assert (Same : map (fun s => if same_slot p (alloc_counter t p) s then set_reg s false else s) (t_subs t) = t_subs t).
+    { rewrite <- (map_id (t_subs t)) at 2. apply map_ext_in. intros s Hs. unfold same_slot, alloc_counter.
+      destruct (Hb s Hs) as [Hle _]. replace (N.succ (t_next t) =? sb_id s)%N with false; [rewrite andb_false_r; reflexivity|].
+      symmetry. apply N.eqb_neq. lia. }
+    rewrite Same. unfold tinv; simpl. rewrite !map_app, app_length. simpl.
+    split; [|split; [|split; [|split]]].
+    + intros s Hs. apply in_app_or in Hs. destruct Hs as [Hs|[<-|[]]]; simpl.
+      * destruct (Hb s Hs). split; lia.
+      * unfold alloc_counter. split; lia.
+    + apply NoDup_app_snoc; [exact Hi|]. intro Hin. apply in_map_iff in Hin. destruct Hin as [s [E Hs]].
+      destruct (Hb s Hs) as [Hle _]. unfold alloc_counter in E. lia.
+    + apply NoDup_app_snoc; [exact Hh|]. intro Hin. apply in_map_iff in Hin. destruct Hin as [s [E Hs]].
+      destruct (Hb s Hs) as [_ Hlt]. lia.
+    + intros s Hs. apply in_app_or in Hs. destruct Hs as [Hs|[<-|[]]]; [apply Hr; exact Hs|reflexivity].
+    + intros s Hs Ho. apply in_app_or in Hs. destruct Hs as [Hs|[<-|[]]]; [apply He; assumption|].
+      unfold sub_last. simpl. destruct init; reflexivity.
+  - (* TClose *)
+    destruct (find (fun s => Nat.eqb (sb_h s) h) (t_subs t)) as [s0|] eqn:F; [|exact (conj Hb (conj Hi (conj Hh (conj Hr He))))].
+    destruct (find_some_in _ _ _ F) as [Hs0 Hh0]. apply Nat.eqb_eq in Hh0.
+    destruct (sb_open s0) eqn:O0; [|exact (conj Hb (conj Hi (conj Hh (conj Hr He))))].
+    set (G := fun s : sub =>
+                let s1 := if same_slot (sb_pfx s0) (sb_id s0) s then set_reg s false else s in
+                if Nat.eqb (sb_h s1) h
+                then mkSub (sb_h s1) (sb_pfx s1) (sb_id s1) false (sb_reg s1) (sb_cell s1) (sb_seen s1) (sb_exp s1)
+                else s1).
+    assert (Gid : forall s, sb_id (G s) = sb_id s /\ sb_h (G s) = sb_h s).
+    { intro s. unfold G. destruct (same_slot _ _ s); simpl; destruct (Nat.eqb _ h); simpl; split; reflexivity. }
+    assert (Gother : forall s, In s (t_subs t) -> s <> s0 -> G s = s).
+    { intros s Hs Hne. unfold G.
+      assert (S : same_slot (sb_pfx s0) (sb_id s0) s = false).
+      { unfold same_slot. destruct (N.eqb (sb_id s0) (sb_id s)) eqn:E; [|apply andb_false_r].
+        apply N.eqb_eq in E. exfalso. apply Hne. eapply (NoDup_map_eq sb_id); eauto. }
+      rewrite S. destruct (Nat.eqb (sb_h s) h) eqn:E; [|reflexivity].
+      apply Nat.eqb_eq in E. exfalso. apply Hne. eapply (NoDup_map_eq sb_h); eauto. congruence. }
+    assert (G0 : sb_open (G s0) = false /\ sb_reg (G s0) = false).
+    { unfold G. unfold same_slot. rewrite key_eq_refl, N.eqb_refl. simpl. rewrite Hh0, Nat.eqb_refl. simpl. split; reflexivity. }
+    unfold tinv; simpl. rewrite map_length.
+    assert (Mi : map sb_id (map G (t_subs t)) = map sb_id (t_subs t)).
+    { rewrite map_map. apply map_ext. intro s. apply Gid. }
+    assert (Mh : map sb_h (map G (t_subs t)) = map sb_h (t_subs t)).
+    { rewrite map_map. apply map_ext. intro s. apply Gid. }
+    rewrite Mi, Mh. split; [|split; [exact Hi|split; [exact Hh|split]]].
+    + intros s' Hs'. apply in_map_iff in Hs'. destruct Hs' as [s [<- Hs]]. destruct (Gid s) as [-> ->]. apply Hb. exact Hs.
+    + intros s' Hs'. apply in_map_iff in Hs'. destruct Hs' as [s [<- Hs]].
+      destruct (sub_eq_dec s s0) as [->|Hne]; [destruct G0 as [-> ->]; reflexivity|].
+      rewrite (Gother s Hs Hne). apply Hr. exact Hs.
+    + intros s' Hs' Ho. apply in_map_iff in Hs'. destruct Hs' as [s [<- Hs]].
+      destruct (sub_eq_dec s s0) as [->|Hne]; [destruct G0 as [C _]; congruence|].
+      rewrite (Gother s Hs Hne) in *. apply He; assumption.
+  - (* TUpdate *)
+    unfold tinv; simpl. rewrite map_length, !map_map. simpl.
+    split; [|split; [exact Hi|split; [exact Hh|split]]].
+    + intros s' Hs'. apply in_map_iff in Hs'. destruct Hs' as [s [<- Hs]]. simpl. apply Hb. exact Hs.
+    + intros s' Hs'. apply in_map_iff in Hs'. destruct Hs' as [s [<- Hs]]. simpl. apply Hr. exact Hs.
+    + intros s' Hs' Ho. apply in_map_iff in Hs'. destruct Hs' as [s [<- Hs]]. simpl in *.
+      rewrite (Hr s Hs), Ho. simpl. destruct (key_eq p (sb_pfx s)); unfold sub_last; simpl; [reflexivity|].
+      apply (He s Hs Ho).
+  - (* TReceive *)
+    set (G := fun s : sub =>
+                if Nat.eqb (sb_h s) h && sb_open s then
+                  match sb_cell s with
+                  | Some v => mkSub (sb_h s) (sb_pfx s) (sb_id s) (sb_open s) (sb_reg s) None (sb_seen s ++ [v]) (sb_exp s)
+                  | None => s
+                  end
+                else s).
+    assert (Gf : forall s, sb_id (G s) = sb_id s /\ sb_h (G s) = sb_h s /\ sb_open (G s) = sb_open s /\ sb_reg (G s) = sb_reg s /\
+                           sb_exp (G s) = sb_exp s /\ sub_last (G s) = sub_last s).
+    { intro s. unfold G. destruct (Nat.eqb (sb_h s) h && sb_open s); [|repeat split].
+      destruct (sb_cell s) as [v|] eqn:C; [|repeat split]. simpl. repeat split.
+      unfold sub_last. simpl. rewrite C. apply last_opt_snoc. }
+    unfold tinv; simpl. rewrite map_length.
+    assert (Mi : map sb_id (map G (t_subs t)) = map sb_id (t_subs t)).
+    { rewrite map_map. apply map_ext. intro s. apply Gf. }
+    assert (Mh : map sb_h (map G (t_subs t)) = map sb_h (t_subs t)).
+    { rewrite map_map. apply map_ext. intro s. apply Gf. }
+    rewrite Mi, Mh. split; [|split; [exact Hi|split; [exact Hh|split]]].
+    + intros s' Hs'. apply in_map_iff in Hs'. destruct Hs' as [s [<- Hs]]. destruct (Gf s) as [-> [-> _]]. apply Hb. exact Hs.
+    + intros s' Hs'. apply in_map_iff in Hs'. destruct Hs' as [s [<- Hs]]. destruct (Gf s) as [_ [_ [-> [-> _]]]]. apply Hr. exact Hs.
+    + intros s' Hs' Ho. apply in_map_iff in Hs'. destruct Hs' as [s [<- Hs]].
+      destruct (Gf s) as [_ [_ [Eo [_ [-> ->]]]]]. rewrite Eo in Ho. apply He; assumption.
+Qed.
+
+Lemma tinv_run acts : tinv (trun alloc_counter acts).
+Proof.
+  unfold trun. assert (H : tinv init_tracker) by apply tinv_init. revert H. generalize init_tracker.
+  induction acts as [|a tl IH]; simpl; intros t H; [exact H|]. apply IH, tinv_step, H.
+Qed.
+
+(* Any number of subscribers on any prefixes, subscribing, closing, receiving and being published to in ANY
+   order: every subscriber that is still open ends (once its receiver has taken what is buffered) with the value the
+   specification assigns to it - its initial value, then the last key published for its prefix since it subscribed. *)
+Theorem tracker_latest_observed acts s :
+  In s (t_subs (trun alloc_counter acts)) -> sb_open s = true -> sub_last s = sb_exp s.
+Proof. intros Hs Ho. destruct (tinv_run acts) as [_ [_ [_ [_ He]]]]. apply He; assumption. Qed.
+
+(* a closed subscriber is out of the map: nothing is written to it any more *)
+Theorem tracker_closed_unregistered acts s :
+  In s (t_subs (trun alloc_counter acts)) -> sb_open s = false -> sb_reg s = false.
+Proof. intros Hs Ho. destruct (tinv_run acts) as [_ [_ [_ [Hr _]]]]. rewrite (Hr s Hs). exact Ho. Qed.
+
+(* ids that are only unique among the waiters currently registered for the prefix (len(im)+1): A and B subscribe,
+   A closes, C subscribes and takes B's slot; B stays open and misses every later key *)
+Definition kp : key := [112]%N.
+Theorem tracker_latest_observed_len_ids_refuted :
+  exists acts s, In s (t_subs (trun alloc_len acts)) /\ sb_open s = true /\ sb_h s = 1%nat /\
+                 sb_exp s = Some K6 /\ sub_last s = Some K5.
+Proof.
+  exists [TAdd kp (Some K5); TAdd kp (Some K5); TClose 0; TAdd kp (Some K5); TUpdate kp K6].
+  eexists. split; [vm_compute; right; left; reflexivity|]. repeat split.
 Qed.
